@@ -7,6 +7,8 @@ mod trace;
 mod tree;
 
 #[cfg(kani)]
+pub use item::Item;
+#[cfg(kani)]
 pub use prefix::{common_prefix, common_prefix_char_size, get_prefix_with_char_size};
 pub use trace::Trace;
 pub use tree::{RegexTreeMap, UniqueRegexTreeMap};
